@@ -83,7 +83,8 @@ type region struct {
 	joined           int32
 	done             chan struct{}
 	mask             uint64
-	mode             Mode
+	mode             Mode  // mode the region was forked in
+	live             int32 // current mode (atomic): Drive may degrade to Record
 	extraEnters      int
 }
 
@@ -225,7 +226,7 @@ func (c *Controller) fork(n, rows, dataLen int) {
 		return
 	}
 	r := &region{n: n, rows: rows, dataLen: dataLen, byG: map[uintptr]*worker{},
-		events: make(chan event, 4*n+16), joinCh: make(chan struct{}, 1), done: make(chan struct{}), mode: mode}
+		events: make(chan event, 4*n+16), joinCh: make(chan struct{}, 1), done: make(chan struct{}), mode: mode, live: int32(mode)}
 	if mode == Jitter && c.Mask != nil {
 		r.mask = c.Mask()
 	}
@@ -243,6 +244,8 @@ func (c *Controller) fork(n, rows, dataLen int) {
 		close(r.done)
 	}
 }
+
+func (r *region) cur() Mode { return Mode(atomic.LoadInt32(&r.live)) }
 
 func (c *Controller) cur() *region {
 	c.mu.Lock()
@@ -270,7 +273,7 @@ func (c *Controller) enter(i int) {
 	r.workers = append(r.workers, w)
 	r.byG[w.g] = w
 	r.mu.Unlock()
-	if r.mode == Drive {
+	if r.cur() == Drive {
 		r.events <- event{w, 0}
 		<-w.resume
 	}
@@ -298,7 +301,7 @@ func (c *Controller) step(outStart, outEnd, dataStart, dataEnd, row, col int) {
 		w.lastIV = cur
 	}
 	w.steps++
-	switch r.mode {
+	switch r.cur() {
 	case Drive:
 		r.events <- event{w, 1}
 		<-w.resume
@@ -322,12 +325,11 @@ func (c *Controller) exit(i int, rec interface{}) bool {
 		c.violate("worker-panic", "worker %d panicked: %v", i, rec)
 	}
 	if w != nil {
-		if r.mode == Drive {
+		r.mu.Lock()
+		w.exited = true
+		r.mu.Unlock()
+		if r.cur() == Drive {
 			r.events <- event{w, 2}
-		} else {
-			r.mu.Lock()
-			w.exited = true
-			r.mu.Unlock()
 		}
 	}
 	return false
@@ -531,31 +533,46 @@ func (c *Controller) drive(r *region) {
 	}
 }
 
-// freeRun releases everything that is parked and keeps answering yield
-// points until every worker that entered has exited (used after a
-// violation, and when a region's drive budget is exhausted, so that no
-// goroutine is left parked). live is the number of workers that have
-// entered and not yet exited.
-func (c *Controller) freeRun(r *region, parked map[*worker]bool, live int) {
+// freeRun ends the controlled part of a region: the region degrades to
+// Record mode (yield points no longer park), everything parked is
+// released, events already in flight are answered, and the call returns
+// when every worker that entered has exited. Used after a violation and
+// when a region's drive budget is exhausted, so that no goroutine is
+// left parked.
+func (c *Controller) freeRun(r *region, parked map[*worker]bool, _ int) {
+	atomic.StoreInt32(&r.live, int32(Record))
 	for w := range parked {
 		w.resume <- struct{}{}
 	}
-	for live > 0 {
-		select {
-		case ev := <-r.events:
-			switch ev.kind {
-			case 0:
-				live++
-				ev.w.resume <- struct{}{}
-			case 1:
-				ev.w.resume <- struct{}{}
-			case 2:
-				live--
+	deadline := time.Now().Add(c.Grace)
+	for {
+		drained := false
+		for !drained {
+			select {
+			case ev := <-r.events:
+				if ev.kind != 2 {
+					ev.w.resume <- struct{}{}
+				}
+			default:
+				drained = true
 			}
-		case <-time.After(c.Grace):
+		}
+		r.mu.Lock()
+		live := 0
+		for _, w := range r.workers {
+			if !w.exited {
+				live++
+			}
+		}
+		r.mu.Unlock()
+		if live == 0 {
+			return
+		}
+		if time.Now().After(deadline) {
 			c.violate("hang", "%d workers neither reached a yield point nor exited within %v while the region was finished free-running", live, c.Grace)
 			return
 		}
+		time.Sleep(20 * time.Microsecond)
 	}
 }
 
